@@ -138,7 +138,39 @@ impl ZReorderMap {
         };
 
         map.rewind()?;
+        map.validate_records()?;
         Ok(map)
+    }
+
+    /// Walks every run-length record once and checks it against the declared element count.
+    ///
+    /// The iterator cannot report errors, so a file cut short, a zero-length record or a
+    /// record stream that does not add up to `size` must be refused when the map is opened.
+    fn validate_records(&mut self) -> Result<()> {
+        if self.size > 0 {
+            let mut total: usize = 0;
+            loop {
+                if self.seq_length == 0 {
+                    return Err(ZiporaError::invalid_data(
+                        "ZReorderMap: record with zero sequence length",
+                    ));
+                }
+                total = total.checked_add(self.seq_length).ok_or_else(|| {
+                    ZiporaError::invalid_data("ZReorderMap: sequence lengths overflow")
+                })?;
+                if total >= self.size {
+                    break;
+                }
+                self.read_entry()?;
+            }
+            if total != self.size {
+                return Err(ZiporaError::invalid_data(format!(
+                    "ZReorderMap: records describe {} elements, header declares {}",
+                    total, self.size
+                )));
+            }
+        }
+        self.rewind()
     }
 
     /// Checks if the iterator has reached the end.
